@@ -11,5 +11,6 @@ CONSTANTS
   NC3 = 2
   AliasBug = FALSE
 VIEW View
+INVARIANTS NoCrossTalk InvCachesSound
 PROPERTIES EmitProp
 CHECK_DEADLOCK FALSE
